@@ -53,7 +53,7 @@ DEFCFG = {'backend': 'flat', 'dtype': 'int16', 'offset': 0, 'junk': 0, 'as': 'li
           'ext': '.bin'}
 # optional keys (absent = False / none): 'used' (reader already queried), 'tuple1' (reader[(item,)]), 'aslist' (.npy / .cbin
 # given as [path]), 'extra' (.cbin: lengths of further files passed after the first; phylib reads the first only)
-EXN = {'IndexError': 1, 'ValueError': 2, 'AssertionError': 3, 'ZeroDivisionError': 4}
+EXN = {'IndexError': 1, 'ValueError': 2, 'AssertionError': 3, 'ZeroDivisionError': 4, 'NotImplementedError': 5, 'TypeError': 6}
 
 
 def _cfg(**kw):
@@ -157,7 +157,9 @@ def valid_case(case):
         return bool(sizes) and min(sizes) >= 0 and sum(sizes) >= 1 and valid_item(sum(sizes), i['item']) and \
             i['form'] in ('plain', 'tuple1', 'tuple2')
     if k == 'ctor':
-        return bool(i['fbytes']) and min(i['fbytes']) >= 0 and i['offset'] >= 0 and i['dtype'] in ITEMSIZE
+        return min(i['fbytes'] + [0]) >= -1 and i['offset'] >= 0 and i['dtype'] in ITEMSIZE
+    if k == 'dispatch':
+        return (i['what'] == 'tuple' and 0 <= i['k'] <= 4) or (i['what'] == 'npy' and 1 <= i['k'] <= 3)
     cfg = i['cfg']
     sizes, c = i['sizes'], i['c']
     n = sum(sizes)
@@ -209,9 +211,16 @@ def _sub(sizes, item, form='plain', **kw):
     return {'kind': 'sub', 'inp': {'sizes': list(sizes), 'item': item, 'form': form, 'as': kw.get('as', 'list')}}
 
 
-def _ctor(fbytes, c, offset=0, dtype='int16', rate=3.0):
-    """FlatEphysReader on files of the given byte lengths"""
-    return {'kind': 'ctor', 'inp': {'fbytes': list(fbytes), 'c': c, 'offset': offset, 'dtype': dtype, 'rate': rate}}
+def _ctor(fbytes, c, offset=0, dtype='int16', rate=3.0, direct=False):
+    """a flat reader on files of the given byte lengths (-1 = the file does not exist), through get_ephys_reader(list of
+    paths) or, direct=True, FlatEphysReader(list of paths)"""
+    return {'kind': 'ctor', 'inp': {'fbytes': list(fbytes), 'c': c, 'offset': offset, 'dtype': dtype, 'rate': rate,
+                                    'direct': direct}}
+
+
+def _dispatch(what, k):
+    """what = 'tuple': reader[t] with a tuple of k index expressions; 'npy': get_ephys_reader on a list of k .npy paths"""
+    return {'kind': 'dispatch', 'inp': {'what': what, 'k': k}}
 
 
 def _attrs(sizes, c, **cfg):
@@ -296,6 +305,14 @@ CORPUS = [
     _ctor([12], 0), _ctor([12], -1), _ctor([0], 2), _ctor([12, 0], 2), _ctor([12], 2, offset=12), _ctor([12], 2, offset=14),
     _ctor([12], 2, rate=0.0), _ctor([12], 2, rate=-1.0), _ctor([12], 2, rate=1e-4), _ctor([12, 5], 3), _ctor([5], 3),
     _ctor([12, 13], 2, offset=1, dtype='float32'),
+    # a file that does not exist: first of the list (get_ephys_reader returns None, line 498), later in the list (TypeError),
+    # FlatEphysReader called directly (assert all(p.exists()))
+    _ctor([-1, 12], 2), _ctor([12, -1], 2), _ctor([-1], 2), _ctor([], 2), _ctor([12, -1], 2, direct=True), _ctor([-1], 2, direct=True),
+    _ctor([12, 12], 2, direct=True),
+    # reader[t] for tuples of 0, 3, 4 index expressions: NotImplementedError (line 229); 1 and 2 are answered
+    _dispatch('tuple', 0), _dispatch('tuple', 1), _dispatch('tuple', 2), _dispatch('tuple', 3), _dispatch('tuple', 4),
+    # a list of two / three .npy paths: ValueError (line 420)
+    _dispatch('npy', 1), _dispatch('npy', 2), _dispatch('npy', 3),
 ]
 
 
@@ -724,19 +741,40 @@ def run_case(case):
     if case['kind'] == 'ctor':
         import numpy as np
         from pathlib import Path
-        from phylib.io.traces import get_ephys_reader
+        from phylib.io.traces import get_ephys_reader, FlatEphysReader
         d = _tmp()
         try:
             paths = []
             for j, nb in enumerate(i['fbytes']):
                 p = Path(d + 'f%02d.bin' % j)
-                p.write_bytes(b'\x01' * nb)
+                if nb >= 0:
+                    p.write_bytes(b'\x01' * nb)
                 paths.append(p)
-            r = get_ephys_reader(paths, sample_rate=i['rate'], dtype=np.dtype(i['dtype']), n_channels=i['c'],
-                                 offset=i['offset'])
+            make = FlatEphysReader if i.get('direct') else get_ephys_reader
+            r = make(paths, sample_rate=i['rate'], dtype=np.dtype(i['dtype']), n_channels=i['c'], offset=i['offset'])
+            if r is None:
+                return ('none',)
             pb = [int(x) for x in r.part_bounds]
             del r
             return ('bounds', pb)
+        finally:
+            _cleanup(d)
+    if case['kind'] == 'dispatch':
+        import numpy as np
+        from pathlib import Path
+        from phylib.io.traces import get_ephys_reader
+        if i['what'] == 'tuple':
+            r = get_ephys_reader(matrix(4, 3, 'int16'), sample_rate=3.0)
+            out = r[tuple([slice(1, 3), [0, 1], 0, 0][:i['k']])]
+            assert isinstance(out, np.ndarray) and out.shape == (2, 3 if i['k'] == 1 else 2), out
+            return ('none',)
+        d = _tmp()
+        try:
+            np.save(d + 'a.npy', matrix(4, 3, 'int16'))
+            r = get_ephys_reader([Path(d + 'a.npy')] * i['k'], sample_rate=3.0)
+            assert tuple(r.shape) == (4, 3)
+            del r
+            return ('none',)
         finally:
             _cleanup(d)
     cfg = i['cfg']
@@ -843,11 +881,14 @@ def encode(case, obs):
             return cin, q.app('ObsSubs', q.lst(obs[1], _subitem))
         return cin, 'ObsCrash'
     if case['kind'] == 'ctor':
-        cin = q.app('InCtor', q.zl(i['fbytes']), q.z(i['offset']), q.z(ITEMSIZE[i['dtype']]), q.z(i['c']),
-                    q.z(int(round(600.0 * i['rate']))))
+        cin = q.app('InCtor', q.b(i.get('direct')), q.zl(i['fbytes']), q.z(i['offset']), q.z(ITEMSIZE[i['dtype']]),
+                    q.z(i['c']), q.z(int(round(600.0 * i['rate']))))
         if obs[0] == 'bounds':
             return cin, q.app('ObsBounds', q.zl(obs[1]))
-        return cin, (_raise(obs) if obs[0] == 'crash' else 'ObsOther')
+        return cin, ('ObsNone' if obs[0] == 'none' else _raise(obs) if obs[0] == 'crash' else 'ObsOther')
+    if case['kind'] == 'dispatch':
+        cin = q.app('InDispatch', q.app('TupleArity' if i['what'] == 'tuple' else 'NpyPaths', q.z(i['k'])))
+        return cin, ('ObsNone' if obs[0] == 'none' else _raise(obs) if obs[0] == 'crash' else 'ObsOther')
     cfg = i['cfg']
     dt = DT[cfg['dtype']]
     if case['kind'] in ('get', 'any'):
@@ -884,9 +925,9 @@ def encode(case, obs):
 def nontrivial(case, obs):
     k = case['kind']
     i = case['inp']
-    if obs[0] == 'other' or (obs[0] == 'crash' and k not in ('any', 'ctor')):
+    if obs[0] == 'other' or (obs[0] == 'crash' and k not in ('any', 'ctor', 'dispatch')):
         return False
-    if k == 'ctor':
+    if k in ('ctor', 'dispatch'):
         return True
     return len(i['sizes']) >= 2 or i.get('cols') is not None
 
@@ -901,8 +942,8 @@ def dist(case, obs):
     if k == 'sub':
         return ['kind=sub', 'sub.form=' + i['form'], 'sub.item=' + i['item'][0], 'parts=%s' % _bucket(len(i['sizes'])),
                 'zero_row_file=%s' % (0 in i['sizes'])]
-    if k == 'ctor':
-        return ['kind=ctor', 'ctor.outcome=' + (obs[1] if obs[0] == 'crash' else obs[0])]
+    if k in ('ctor', 'dispatch'):
+        return ['kind=' + k, k + '.outcome=' + (obs[1] if obs[0] == 'crash' else obs[0])]
     cfg = i['cfg']
     out = ['kind=' + case['kind'], 'backend=' + cfg['backend'], 'dtype=' + cfg['dtype'],
            'parts=%s' % _bucket(len(i['sizes'])), 'n=%s' % _bucket(sum(i['sizes'])), 'channels=%d' % i['c'],
@@ -947,7 +988,9 @@ def dist(case, obs):
 def size(case):
     i = case['inp']
     if case['kind'] == 'ctor':
-        return sum(i['fbytes']) + len(i['fbytes'])
+        return sum(i['fbytes']) + 2 * len(i['fbytes'])
+    if case['kind'] == 'dispatch':
+        return i['k']
     s = 10 * sum(i['sizes']) + 5 * len(i['sizes']) + i.get('c', 0)
     s += sum(1 for k, v in i.get('cfg', {}).items() if DEFCFG.get(k) != v)
     if case['kind'] in ('get', 'any', 'sub'):
@@ -958,7 +1001,7 @@ def size(case):
 def shrink(case):
     k = case['kind']
     i = case['inp']
-    if k in ('any', 'ctor'):
+    if k in ('any', 'ctor', 'dispatch'):
         return          # judged against the model only: never the subject of a failing-input search
     if k == 'sub':
         # the same reductions as for a read, on (sizes, item)
